@@ -181,9 +181,9 @@ Proofs/LockAddrsProof.vos Proofs/LockAddrsProof.vok Proofs/LockAddrsProof.requir
 Properties/C14.vo Properties/C14.glob Properties/C14.v.beautified Properties/C14.required_vo: Properties/C14.v Model/Lock.vo Proofs/LockProof.vo Model/LockAddrs.vo Proofs/LockAddrsProof.vo
 Properties/C14.vio: Properties/C14.v Model/Lock.vio Proofs/LockProof.vio Model/LockAddrs.vio Proofs/LockAddrsProof.vio
 Properties/C14.vos Properties/C14.vok Properties/C14.required_vos: Properties/C14.v Model/Lock.vos Proofs/LockProof.vos Model/LockAddrs.vos Proofs/LockAddrsProof.vos
-AsFound/C14.vo AsFound/C14.glob AsFound/C14.v.beautified AsFound/C14.required_vo: AsFound/C14.v Model/LockAddrs.vo
-AsFound/C14.vio: AsFound/C14.v Model/LockAddrs.vio
-AsFound/C14.vos AsFound/C14.vok AsFound/C14.required_vos: AsFound/C14.v Model/LockAddrs.vos
+AsFound/C14.vo AsFound/C14.glob AsFound/C14.v.beautified AsFound/C14.required_vo: AsFound/C14.v Model/LockAddrs.vo Properties/C14.vo
+AsFound/C14.vio: AsFound/C14.v Model/LockAddrs.vio Properties/C14.vio
+AsFound/C14.vos AsFound/C14.vok AsFound/C14.required_vos: AsFound/C14.v Model/LockAddrs.vos Properties/C14.vos
 Model/Reader.vo Model/Reader.glob Model/Reader.v.beautified Model/Reader.required_vo: Model/Reader.v 
 Model/Reader.vio: Model/Reader.v 
 Model/Reader.vos Model/Reader.vok Model/Reader.required_vos: Model/Reader.v 
